@@ -385,7 +385,7 @@ def obj_value(run, model, oid, t, path=()):
         return [obj_value(run, model, oid, prog.elem(t), path + (i,)) for i in range(prog.array_len(t))]
     if k in ("func", "ptr", "interface", "slice"):
         return None
-    v = run.old_mem.get((oid, path))
+    v = (getattr(run, '_replay_old', None) or run.old_mem).get((oid, path))
     return model_value(run, model, v, t)
 
 
@@ -398,6 +398,7 @@ def replay_obligation(repo, ob, rep):
     prog = run.prog
     f = run.f
     c = run.c
+    run._replay_old = getattr(ob, 'old_mem', None)
     model = ob.result.model
     pkg = f.get("pkg", "")
     localpkg = pkg
@@ -432,7 +433,7 @@ def replay_obligation(repo, ob, rep):
             et = prog.elem(t)
             cells = []
             for j in range(ln):
-                cv = run.old_mem.get((v.obj, (j,)))
+                cv = (getattr(run, '_replay_old', None) or run.old_mem).get((v.obj, (j,)))
                 cells.append(model_value(run, model, cv, et) if cv is not None else 0)
             inputs[nm] = cells
             setup.append("%s := %s{%s}" % (gv, go_type(prog, t, localpkg), ", ".join(str(x) for x in cells)))
